@@ -81,6 +81,9 @@ def parse_diags(stderr, tree):
 _MACROS = {}
 
 
+EXTRA_INC = {}     # output tree -> further include options its headers need (the CETL stand-in)
+
+
 def macros_visible(tree, rel, std):
     """The object- and function-like macros defined once `rel` is included (the preprocessor's own list)."""
     k = (tree, rel, std)
@@ -88,7 +91,7 @@ def macros_visible(tree, rel, std):
         tu = os.path.join(tree, "_m_%s.cpp" % common.sha(rel + std)[:10])
         with open(tu, "w") as f:
             f.write('#include "%s"\n' % rel)
-        r = common.run(["g++", "-std=" + std, "-dM", "-E", "-I", tree, tu], timeout=300)
+        r = common.run(["g++", "-std=" + std, "-dM", "-E", "-I", tree] + EXTRA_INC.get(tree, []) + [tu], timeout=300)
         os.unlink(tu)
         _MACROS[k] = set(re.findall(r"^#define (\w+)", r.stdout, re.M))
     return _MACROS[k]
@@ -207,11 +210,36 @@ def has_union_with_varray(t):
     return False
 
 
-def classify(lang, diag, t, alltypes, omit, as_cxx=False, macros=None):
+def needs_default_constructible_members(t, seen=None):
+    """The type, or a type it nests, holds a fixed-length array of composites or is a union with a composite / variable-length array /
+    array-of-composites alternative: members the generated C++ code value-initialises or emplaces without arguments."""
+    seen = seen if seen is not None else set()
+    if id(t) in seen:
+        return False
+    seen.add(id(t))
+    parts = [t.request_type, t.response_type] if isinstance(t, pydsdl.ServiceType) else [t]
+    for p in parts:
+        it = p.inner_type if isinstance(p, pydsdl.DelimitedType) else p
+        for f in it.fields_except_padding:
+            dt = f.data_type
+            if isinstance(dt, pydsdl.FixedLengthArrayType) and isinstance(dt.element_type, pydsdl.CompositeType):
+                return True
+            if isinstance(it, pydsdl.UnionType) and (isinstance(dt, (pydsdl.CompositeType, pydsdl.VariableLengthArrayType))):
+                return True
+    return any(needs_default_constructible_members(x, seen) for x in dsdlgen.composite_deps(t))
+
+
+CTOR_DIAG = re.compile(r"no matching constructor for initialization|no matching function for call to|could not convert '<brace-enclosed initializer list>|"
+                       r"implicitly-deleted default constructor|use of deleted function|no matching member function for call to 'emplace'|call to deleted constructor")
+
+
+def classify(lang, diag, t, alltypes, omit, as_cxx=False, macros=None, cetl=False):
     """A known finding = (structural precondition on the input, diagnostic pattern); explains exactly the diagnostics it matches."""
     msg, opt = diag["msg"], diag["opt"]
     if t is None:
         return None
+    if lang == "cpp" and cetl and CTOR_DIAG.search(msg) and needs_default_constructible_members(t):
+        return "cpp-cetl-members-need-default-constructor"
     if lang == "cpp" and macros is not None:
         # a DSDL name of this type that the included standard headers define as a macro, used as a token on the diagnosed line
         hit = [n for n in dsdl_names(t) if re.search(r"\b%s\b" % re.escape(n), diag.get("src", ""))]
@@ -224,6 +252,11 @@ def classify(lang, diag, t, alltypes, omit, as_cxx=False, macros=None):
     return None
 
 
+# headers of third-party libraries that a language-standard preset names through its options (variable_array_type_include,
+# allocator_include): they are not produced by generation and are not expected to be
+EXTERNAL_INCLUDES = {"cetl/variable_length_array.hpp", "cetl/pf17/sys/memory_resource.hpp"}
+
+
 def resolver(lang, files):
     """Every #include "..." / import of a generated name resolves to a generated file."""
     bad = []
@@ -233,7 +266,7 @@ def resolver(lang, files):
         text = content.decode("utf-8", "replace")
         if lang in ("c", "cpp"):
             for inc in re.findall(r'^\s*#\s*include\s+"([^"]+)"', text, re.M):
-                if inc not in names:
+                if inc not in names and inc not in EXTERNAL_INCLUDES:
                     bad.append((rel, inc))
         elif lang == "py" and rel.endswith(".py"):
             for mod in re.findall(r"^\s*import\s+([A-Za-z_][\w\.]*)\s*$", text, re.M) + re.findall(r"^\s*from\s+([A-Za-z_][\w\.]*)\s+import", text, re.M):
@@ -473,6 +506,9 @@ def one_set(ctx, idx, cflags, cxxflags):
         configs.append(("c", [], omit))
         for std in (["c++14", "c++17-pmr"] if ctx.quick else ["c++14", "c++17", "c++20", "c++17-pmr"]):
             configs.append(("cpp", ["--language-standard", std], omit))
+        if not omit and (not ctx.quick or idx in ("shapes", 0)):
+            # the CETL flavour: compiled against a stand-in for the two CETL headers it names (vlib/cetl_stub; the submodule is empty here)
+            configs.append(("cpp", ["--language-standard", "cetl++14-17"], omit))
         configs.append(("py", [], omit))
     if ctx.quick and idx != "shapes":
         configs = [c for c in configs if not c[2]] + R.sample([c for c in configs if c[2]], 2)
@@ -537,12 +573,16 @@ def one_set(ctx, idx, cflags, cxxflags):
                     if not ctx.quick or R.random() < 0.5:
                         jobs.append((tag, (out, rel, "clang++", "c++14", cflags + ccflags, True)))    # the flag set common to C and C++
         elif lang == "cpp":
-            std = {"c++17-pmr": "c++17"}.get(flags[1], flags[1])
+            std = {"c++17-pmr": "c++17", "cetl++14-17": "c++14"}.get(flags[1], flags[1])
+            cetl = ["-I", os.path.join(common.VERIF, "vlib", "cetl_stub")] if flags[1] == "cetl++14-17" else []
+            meta[tag]["cetl"] = bool(cetl)
+            if cetl:
+                EXTRA_INC[out] = cetl
             for rel in files:
                 if rel.endswith(".hpp"):
-                    jobs.append((tag, (out, rel, "clang++", std, cflags + cxxflags + ccflags, False)))
+                    jobs.append((tag, (out, rel, "clang++", std, cflags + cxxflags + ccflags + cetl, False)))
                     if not ctx.quick or R.random() < 0.5:
-                        jobs.append((tag, (out, rel, "g++", std, cflags + cxxflags + ccflags + ["-Wno-stringop-overflow"], False)))
+                        jobs.append((tag, (out, rel, "g++", "c++17" if cetl else std, cflags + cxxflags + ccflags + cetl + ["-Wno-stringop-overflow"], False)))
         else:
             rels = sorted(r for r in files if r.endswith(".py"))
             env = common.child_env()
@@ -604,7 +644,8 @@ def one_set(ctx, idx, cflags, cxxflags):
             t2 = t or m["types_by_rel"].get(dg["file"])
             tt = m["types_by_rel"].get(dg["file"]) or t2
             mechs.append(classify(m["lang"], dg, tt, None, m["omit"], as_cxx=(m["lang"] == "c" and compiler.endswith("++")),
-                                  macros=(lambda: macros_visible(tree, rel, std)) if m["lang"] == "cpp" else None))
+                                  macros=(lambda: macros_visible(tree, rel, std)) if m["lang"] == "cpp" else None, cetl=m.get("cetl", False))
+                         or (classify(m["lang"], dg, t, None, m["omit"], cetl=True) if (m.get("cetl") and t is not None and tt is not t) else None))
         if m["lang"] == "cpp" and diags:
             subst = macro_substituted_names(tree, rel, std, m["types_by_rel"])
             if subst:
